@@ -227,21 +227,43 @@ func (c *Ctx) ruleE5() {
 				pos token.Pos
 			}
 			var sends []snd
-			for _, g := range withClosures(f) {
+			seenFn := map[*ssa.Function]bool{}
+			var collect func(g *ssa.Function, dv map[ssa.Value]bool, depth int)
+			collect = func(g *ssa.Function, dv map[ssa.Value]bool, depth int) {
+				if g == nil || g.Blocks == nil || seenFn[g] || depth > 3 {
+					return
+				}
+				seenFn[g] = true
 				eachInstr(g, func(x ssa.Instruction) {
 					switch y := x.(type) {
 					case *ssa.Send:
-						if d[y.Chan] {
+						if dv[y.Chan] {
 							sends = append(sends, snd{g, y, y.Pos()})
 						}
 					case *ssa.Select:
 						for _, s := range y.States {
-							if s.Dir == types.SendOnly && d[s.Chan] {
+							if s.Dir == types.SendOnly && dv[s.Chan] {
 								sends = append(sends, snd{g, y, s.Pos})
+							}
+						}
+					case ssa.CallInstruction:
+						// the channel handed to a repo function (possibly started with go)
+						if h := y.Common().StaticCallee(); h != nil && h.Blocks != nil && h.Pkg != nil && inRepo(h.Pkg.Pkg) {
+							var ps []ssa.Value
+							for i, a := range y.Common().Args {
+								if dv[a] && i < len(h.Params) {
+									ps = append(ps, h.Params[i])
+								}
+							}
+							if len(ps) > 0 {
+								collect(h, derived(ps, flowOpts{intoClosures: true}), depth+1)
 							}
 						}
 					}
 				})
+			}
+			for _, g := range withClosures(f) {
+				collect(g, d, 0)
 			}
 			gs := map[*ssa.Function]bool{}
 			for _, s := range sends {
